@@ -213,5 +213,11 @@ EXPORT int _vswprintf_s_chk(wchar_t *restrict dest, rsize_t dmax,
         *dest = 0;
     }
 
+#ifdef SAFECLIB_STR_NULL_SLACK
+    /* null the slack behind the terminator, as documented */
+    if (ret >= 0 && (rsize_t)ret < dmax)
+        memset(&dest[ret], 0, (dmax - ret) * sizeof(wchar_t));
+#endif
+
     return ret;
 }
